@@ -362,3 +362,39 @@ def wrap_free(R, rule, fn, inline=(), roots=('+',), known=None):
         ck.violation(rule, '%s:wrap:%s' % (fn, txt), where,
                      'the sum %s is computed in 32 bits and is not proved to stay below 2^32 on the path {%s}: at the top of the address '
                      'space it wraps, and the comparison that uses it decides the opposite' % (txt, '; '.join(sym.fmt(c) for c in p.cond_terms())[:260]))
+
+
+def callback_guard(R, rule, fn, inline=()):
+    """An area's read / write callback may be absent (a write-only or read-only custom area; the predicates
+    register_area_is_readable / register_area_can_write test for it): every call through such a pointer is made only on
+    paths that have established that it is not null."""
+    from .. import sym as _sym
+    ck = R.ck
+    eng = _sym.Engine(R.u, sizeof=R.so, inline=set(INLINE_SMALL) | set(inline))
+    ps = R.paths(fn, rule, eng)
+    if ps is None:
+        return
+    ncall = 0
+    bad = None
+    for p in ps:
+        for e in p.effects:
+            if e.kind != 'icall':
+                continue
+            member = e.name.split('.')[-1]
+            if member not in ('read', 'write'):
+                continue
+            ncall += 1
+            area = _norm_term(e.args[0]) if e.args else ''
+            ok = False
+            for c in p.cond_terms():
+                if c[0] == 'cmp' and c[1] == '!=' and c[3] == C(0) and c[2][0] == 'f' and c[2][2] == member and _norm_term(c[2][1]) == area:
+                    ok = True
+            if not ok:
+                bad = bad or ('the area\'s %s callback is called at %s under {%s} without having been tested: for an area without that callback '
+                              '(a %s custom area) this is a call through a null pointer' % (
+                                  member, e.where(), '; '.join(_sym.fmt(c) for c in p.cond_terms())[-200:],
+                                  'write-only' if member == 'read' else 'read-only'))
+    if ncall == 0:
+        return ck.broken(rule, fn + ':callbacks', R.where(fn), 'no call through an area callback found (anchor vanished)')
+    ck.verdict(bad is None, rule, fn + ':callbacks', R.where(fn),
+               'every call through an area callback (%d on all paths) follows a test that the callback exists' % ncall if bad is None else bad)
